@@ -142,22 +142,24 @@ CLAIMS["C19"] = dict(
 
 CLAIMS["C01"] = dict(
    text="Proof of trap-freedom of the per-line pipeline + exhaustive panic search. Lean 4 theorems (Props/C01.lean, Proofs/Safe.lean): for each of the "
-        "133 functions the translator regenerates from the source, Generated/TransSafe.lean states (regenerated on every run, extract/rs2safe.py) the "
+        "140 functions the translator regenerates from the source (incl. reminder's vector loops and the CPR arithmetic of position.rs), Generated/TransSafe.lean states (regenerated on every run, extract/rs2safe.py) the "
         "conditions under which none of its operations panics - unsigned subtraction, overflowing + and *, over-wide shifts, indexing, expect/unwrap, "
-        "division by zero, and the safety of every call, each under its path condition (430 obligations) - and they are proved bottom-up: "
+        "division by zero, and the safety of every call, each under its path condition (491 obligations) - and they are proved bottom-up: "
         "get_message cannot trap on ANY line (no hypothesis); every field decoder, register recogniser and record builder on every accepted frame; "
         "every row update of both paths; update_aircraft, cleanup and the loop body of read_lines (no_trap_per_line) for every line, option set and "
-        "table whose rows carry decoder-made altitudes (< 100000 ft, which altitude() guarantees for what it returns) and counters below 2^31-1. "
+        "table whose rows carry decoder-made altitudes (< 100000 ft, which altitude() guarantees for what it returns) and counters below 2^31-1; "
+        "and these two invariants hold in EVERY REACHABLE STATE (no_trap_in_any_reachable_state, Proofs/TableInv.lean): from a fresh start, after any run "
+        "of fewer than 2^31-1 lines of arbitrary characters, each at its own time, under any options, the next line cannot trap - proved on the model's "
+        "stepLine and carried to the translated loop by the simulation theorem. "
         "Also: the model's line step, segment fold and line splitter are total; every read of the message vector lies inside the frame its function "
         "can see (sites regenerated from the source); every field fits the u32 arithmetic of range_value; the only unbounded loop is the TCP retry loop; "
-        "a hostile line is a no-op and the lines after it are processed. PARTIAL: that the row hypothesis (TableOK) is preserved by every step is "
-        "argued, not proved; functions outside the translated subset (f64 trigonometry, rendering, option parsing, main) are covered by the "
+        "a hostile line is a no-op and the lines after it are processed. PARTIAL: functions outside the translated subset (f64 trigonometry, rendering, option parsing, main) are covered by the "
         "reviewed arithmetic-site inventory and by the panic search: the real reader thread (overflow checks on, catch_unwind) and the built CLI run "
         "over exhaustive field sweeps, hostile lines and option sets; any panic or non-zero exit is a violation with the input as replay.",
    note="trusted: Lean kernel and standard axioms; the translator and the safety pass (which operations trap, how path conditions are collected: "
         "extract/rs2safe.py header); the sites extractor; harness and CLI build. Not covered: allocation failure, stack exhaustion, i32 counter overflow "
         "after 2^31 frames of one DF (an explicit hypothesis of the theorem).",
-   technique="Lean 4 proof (trap-freedom propositions generated from the source for all translated functions and proved; decide over source-extracted access sites) + exhaustive/fuzz panic search on the real code with overflow checks", ref="5.1, 14.6")
+   technique="Lean 4 proof (trap-freedom propositions generated from the source for all translated functions and proved; decide over source-extracted access sites) + exhaustive/fuzz panic search on the real code with overflow checks", ref="5.1, 14.6, 14.9")
 CLAIMS["C14"] = dict(
    text="Lean 4 theorems (Props/C14.lean) over the header cells regenerated from header.rs: the header is the fixed columns with each optional group "
         "inserted exactly when its -i letter is set, in fixed relative order; for all 32 group sets cell i of a row stands under header i with the "
